@@ -131,7 +131,7 @@ def main():
                 proof["extracted_facts"] = out.strip().splitlines()[-1] if out.strip() else "ok"
         # Lean: root files / driver dispatch from the directory listing, property theorems + driver
         sh([sys.executable, os.path.join(VERIF, "bin", "gen_roots.py")], env=dict(os.environ, VERIF_DIR=VERIF))
-        targets = list(cfg["lean_modules"]) + ["hermes_driver"]
+        targets = list(cfg["lean_modules"]) + ["HermesProps.AuditCmd", "hermes_driver"]
         rc, out = sh(["lake", "build"] + targets, cwd=LEAN, timeout=3000)
         lean_ok = rc == 0
         driver_ok = lean_ok
